@@ -25,7 +25,7 @@
 (* action property Refines states that every step of this model is a step  *)
 (* (or a stutter) of KeepPutContract.                                      *)
 (***************************************************************************)
-EXTENDS Naturals, Sequences, FiniteSets, TLC, Json, IOUtils
+EXTENDS Integers, Sequences, FiniteSets, TLC, Json, IOUtils
 
 CONSTANTS MaxN,        \* max number of writable services
           MaxWant,     \* max desired replicas
@@ -33,7 +33,7 @@ CONSTANTS MaxN,        \* max number of writable services
           KindSet,     \* outcome kinds the environment may choose
           MaxHist      \* bound on the recorded history (Gen only)
 
-VARIABLES cfg, attempts, last, allok, everok, confirmed, maybe, done,   \* contract ghost state
+VARIABLES cfg, attempts, last, allok, everok, confirmed, maxrep, maybe, done,   \* contract ghost state
           n,           \* number of writable services (sv of round 1 = <<1..n>>, rendezvous order)
           rpt,         \* replicasPerThread
           sv, nextServer, active, todo, rdone, retriesRemaining, retryServers, locator,
@@ -41,7 +41,7 @@ VARIABLES cfg, attempts, last, allok, everok, confirmed, maybe, done,   \* contr
           hist         \* sequence of <<server, kind>> completions, in order (history variable)
 
 C == INSTANCE KeepPutContract
-cvars == <<cfg, attempts, last, allok, everok, confirmed, maybe, done>>
+cvars == <<cfg, attempts, last, allok, everok, confirmed, maxrep, maybe, done>>
 
 ivars == <<n, rpt, sv, nextServer, active, todo, rdone, retriesRemaining, retryServers, locator, pc>>
 vars  == <<cvars, ivars, hist>>
